@@ -54,3 +54,37 @@ Proof.
   - exists [Elem 98 2 [1; 2]; Elem 812 1 [7]; Elem 844 0 []; Elem 80 2 [5; 0]]. split; [vm_compute; reflexivity|].
     repeat first [apply wu_nil | apply wu_keep | (apply wu_ins; [vm_compute; reflexivity|])].
 Qed.
+
+(* the reply envelope as a peer running this library reads it: the data, with the token *)
+Theorem reply_unwraps k data t n :
+  tl_dec data = Ok (t, n) -> N.of_nat (length (ser_els (token_els k data))) < two64 ->
+  unwrap_v2 LP_PACKET (spec_reply_wire (Some k) data) = UPacket t (Some k) data.
+Proof.
+  intros Ht Hl. rewrite token_wire. unfold unwrap_v2.
+  destruct (token_vals_attrs k data) as (Hu & Hn & Htok & Hf).
+  rewrite (unwrap_envelope lp_caught_v2 true _ _ (token_envelope k data Hl) Hu).
+  rewrite Hf. destruct data as [|b data]; [discriminate Ht|]. rewrite Ht.
+  unfold lp_nack. rewrite Hn. cbn [nack_reason_of]. unfold tok_if. rewrite Htok. reflexivity.
+Qed.
+
+Section Idle.
+Variables St Out : Type.
+Variable dispatch : St -> N -> option bytes -> bytes -> St * Out.
+Variable on_nack : St -> N -> bytes -> St * Out.
+Variable nothing : Out.
+
+(* an envelope without a network packet inside (IDLE packet, empty fragment) changes nothing, whatever its
+   headers (a Nack header included) *)
+Theorem idle_dropped s vs els :
+  envelope_of vs els -> unfragmented vs ->
+  lp_attr vs attr_fragment = VNone \/ lp_attr vs attr_fragment = VBytes [] ->
+  receive_v2 St Out dispatch on_nack nothing s LP_PACKET (lp_wire els) = Ok (s, nothing) /\
+  receive_v1 St Out dispatch on_nack nothing s LP_PACKET (lp_wire els) = Ok (s, nothing).
+Proof.
+  intros He Hu Hf. split.
+  - unfold receive_v2, unwrap_v2. rewrite (unwrap_envelope lp_caught_v2 true vs els He Hu).
+    unfold lp_fragment. destruct Hf as [-> | ->]; reflexivity.
+  - unfold receive_v1, unwrap_v1. rewrite (unwrap_envelope lp_caught_v1 false vs els He Hu).
+    unfold lp_fragment. destruct Hf as [-> | ->]; reflexivity.
+Qed.
+End Idle.
